@@ -118,9 +118,9 @@ class _VersionMatch(GenericEquality, restriction.base):
 
     @staticmethod
     def _convert_ops(inst):
+        # the comparison results the restriction accepts; a negated restriction
+        # accepts the complement, for ~ (droprev) as for every other operator.
         if inst.negate:
-            if inst.droprev:
-                return inst.vals
             return tuple(sorted({-1, 0, 1}.difference(inst.vals)))
         return inst.vals
 
@@ -140,7 +140,8 @@ class _VersionMatch(GenericEquality, restriction.base):
 
     # TODO: cached_hash?
     def __hash__(self):
-        return hash((self.droprev, self.ver, self.rev, self.negate, self.vals))
+        # must hash exactly what __eq__ compares: negated '<' equals '>='.
+        return hash((self.droprev, self.ver, self.rev, self._convert_ops(self)))
 
 
 class VersionMatch(packages.PackageRestriction):
